@@ -282,8 +282,39 @@ func TestPropReceive(t *testing.T) {
 		com.WriteTo(&cbuf)
 		objs := []RecvObj{{packfile.ObjectBlock, ""}, {packfile.ObjectTable, ""}, {packfile.ObjectCommit, ""}}
 		raws := [][]byte{blk, tbuf.Bytes(), cbuf.Bytes()}
-		victim := rapid.IntRange(0, 2).Draw(t, "victim")
-		raws[victim], _ = mutate(t, raws[victim])
+		victim := rapid.IntRange(0, 3).Draw(t, "victim")
+		if victim == 3 {
+			// a well-formed table object whose fields disagree with the block it names: key
+			// column index at / past the column count, row count off by one or by a block,
+			// more / fewer block sums than the row count implies, no columns
+			cols := []string{"id", "v", "w"}
+			pk := []uint32{0}
+			nrows := uint32(len(rows))
+			blocks, idxs := [][]byte{model.Sum(blk)}, [][]byte{model.Sum(idx)}
+			switch rapid.IntRange(0, 5).Draw(t, "tablefield") {
+			case 0:
+				pk = []uint32{rapid.SampledFrom([]uint32{3, 2, 4, 1, 1000, 0xffffffff}).Draw(t, "pkidx")}
+			case 1:
+				pk = []uint32{0, rapid.SampledFrom([]uint32{0, 3, 1}).Draw(t, "pk2")}
+			case 2:
+				nrows = rapid.SampledFrom([]uint32{nrows + 1, nrows - 1, 0, 255, 256, 0xffffffff}).Draw(t, "nrows")
+			case 3:
+				blocks = append(blocks, model.Sum(blk))
+				idxs = append(idxs, model.Sum(idx))
+				nrows = rapid.SampledFrom([]uint32{nrows, 256, 2 * nrows}).Draw(t, "nrows2")
+			case 4:
+				cols = cols[:rapid.IntRange(0, 2).Draw(t, "ncols")]
+			default:
+				cols = []string{"id", "id", "w"}
+			}
+			raws[1] = model.EncodeTable(cols, pk, nrows, blocks, idxs)
+			com.Table = model.Sum(raws[1])
+			var cb bytes.Buffer
+			com.WriteTo(&cb)
+			raws[2] = cb.Bytes()
+		} else {
+			raws[victim], _ = mutate(t, raws[victim])
+		}
 		if rapid.IntRange(0, 4).Draw(t, "second") == 0 {
 			v2 := rapid.IntRange(0, 2).Draw(t, "victim2")
 			raws[v2], _ = mutate(t, raws[v2])
